@@ -3,6 +3,7 @@ package c12
 import (
 	"errors"
 	"fmt"
+	goerrors "github.com/ajitpratap0/GoSQLX/pkg/errors"
 	"strings"
 	"testing"
 	"time"
@@ -153,11 +154,18 @@ func oracleScript(c ScriptCase) error {
 	if len(errs) != nBad {
 		return fmt.Errorf("%d segments are malformed but recovery parsing reports %d errors", nBad, len(errs))
 	}
-	// each error names a token inside its own segment
+	// each error names a token inside its own segment, and where it carries a source location
+	// that location lies inside the segment's text (up to and including its terminator)
+	text := c.text()
 	start := 0
 	ei := 0
+	off := 0
 	for i, s := range c.Segments {
-		end := start + s.NToks // token indices [start,end) belong to the segment; end is its semicolon
+		end := start + s.NToks         // token indices [start,end) belong to the segment; end is its semicolon
+		segEnd := off + len(s.SQL) + 2 // " ;"
+		if i == len(c.Segments)-1 {
+			segEnd = len(text)
+		}
 		if !want[i].ok {
 			var pe *parser.ParseError
 			if errors.As(errs[ei], &pe) {
@@ -165,11 +173,57 @@ func oracleScript(c ScriptCase) error {
 					return fmt.Errorf("error %d belongs to segment %d (tokens %d..%d) but names token %d", ei, i, start, end-1, pe.TokenIdx)
 				}
 			}
+			var se *goerrors.Error
+			if errors.As(errs[ei], &se) && se.Location.Line > 0 {
+				if at, ok := offsetOf(text, se.Location.Line, se.Location.Column); ok {
+					hx.Class("recovery_script", "error_locations_checked")
+					if at < off || at > segEnd {
+						return fmt.Errorf("error %d belongs to segment %d (bytes %d..%d of the script) but is located at %d:%d = byte %d (%q)", ei, i, off, segEnd, se.Location.Line, se.Location.Column, at, clipAt(text, at))
+					}
+				}
+			}
 			ei++
 		}
 		start = end + 1
+		off += len(s.SQL) + 3 // " ; "
 	}
 	return nil
+}
+
+// offsetOf converts a 1-based (line, column) into a byte offset of text; ok is false when the
+// line prefix contains a tab or a non-ASCII byte (the library's column arithmetic differs there).
+func offsetOf(text string, line, col int) (int, bool) {
+	l, lineStart := 1, 0
+	for i := 0; i < len(text) && l < line; i++ {
+		if text[i] == '\n' {
+			l++
+			lineStart = i + 1
+		}
+	}
+	if l != line || col < 1 {
+		return 0, false
+	}
+	at := lineStart + col - 1
+	if at > len(text) {
+		return 0, false
+	}
+	for i := lineStart; i < at && i < len(text); i++ {
+		if text[i] == '\t' || text[i] >= 0x80 || text[i] == '\n' {
+			return 0, false
+		}
+	}
+	return at, true
+}
+
+func clipAt(text string, at int) string {
+	a, b := at-15, at+15
+	if a < 0 {
+		a = 0
+	}
+	if b > len(text) {
+		b = len(text)
+	}
+	return text[a:b]
 }
 
 var scriptCheck = hx.NewCheck("recovery_script", oracleScript)
@@ -200,7 +254,7 @@ func prefixComplete(toks []sqlgen.Tok) bool {
 }
 
 func TestRecoveryScript(t *testing.T) {
-	hx.Rule("recovery_script", "scripts S1;...;Sn (n<=6) of flat G-SQL statements (no statement-starting keyword after the first token), each kept or corrupted (delete/duplicate/swap/replace/insert/truncate); each Si is classified by gosqlx.Parse alone; recovery parsing must return exactly the trees of the well-formed ones in order, one error per malformed one, each naming a token of its own segment; non-trivial = a malformed segment that is neither first nor last, or two adjacent malformed segments; distinct = verdict vector + corruption kinds + sizes")
+	hx.Rule("recovery_script", "scripts S1;...;Sn (n<=6) of flat G-SQL statements (no statement-starting keyword after the first token), each kept or corrupted (delete/duplicate/swap/replace/insert/truncate); each Si is classified by gosqlx.Parse alone; recovery parsing must return exactly the trees of the well-formed ones in order, one error per malformed one, each naming a token of its own segment and, where it carries a line/column, located inside its own segment's text; non-trivial = a malformed segment that is neither first nor last, or two adjacent malformed segments; distinct = verdict vector + corruption kinds + sizes")
 	scriptCheck.Rapid(t, hx.N(100000, 1000000), func(rt *rapid.T) ScriptCase {
 		n := rapid.IntRange(1, 6).Draw(rt, "nseg")
 		var c ScriptCase
